@@ -63,3 +63,16 @@ Definition WalkSelect (bm : list Z) : option (list Z * list (Z * Z) * list (Z * 
 Definition sel_pairs (o : list Z) (n : Z) : list (Z * Z) :=
   map (fun k => (nth (Z.to_nat k) o 0, if k + 1 <? zlen o then nth (Z.to_nat (k + 1)) o 0 else n))
       (map Z.of_nat (seq 0 (length o))).
+
+(** [r := Slice(bm, from, to); walk the whole of r with NextOne; with PrevOne] *)
+From Low Require Import Model.BitmapJoin.
+
+Definition SliceWalk (bm : list Z) (from to : Z) : option (list Z * list Z) :=
+  match Slice bm from to with
+  | None => None
+  | Some r =>
+      match IterNext r 0 (64 * zlen r), IterPrev r 0 (64 * zlen r) with
+      | Some a, Some b => Some (a, b)
+      | _, _ => None
+      end
+  end.
